@@ -311,3 +311,8 @@ func TestShiftCornerGrid(t *testing.T) {
 		},
 	})
 }
+
+// FuzzGenShift: the structured generator driven by Go's coverage-guided fuzzer (thorough tier).
+func FuzzGenShift(f *testing.F) {
+	h.FuzzSub(f, h.Sub[shiftCase]{Prop: "C08", Name: "shift-commutes", Gen: genShift, Check: checkShift})
+}
